@@ -4,6 +4,11 @@ EN = "execution::kani_c20_engine"
 HASH_STUB = "crypto::hash::hash_all"
 ENTRY_STUB = "execution::commitment::LtHash::hash_entry"
 Q, T = ["quick", "thorough"], ["thorough"]
+VL = 64  # lanes under Kani (kani_c20_hash::VL)
+
+KEYS8 = "keys: the 8 addresses [0x28|k, 0, ..., 0], k<8 symbolic (same first 5-bit chunk, different second chunk); values: 1 symbolic byte"
+STANDINS = "state.rs on the typed stand-ins for Arc (10-node pool), SmallVec (<=4 children) and the traversal stack (<=4 entries)"
+
 
 def _k(name, functions, bounds, covers, tiers=Q, **kw):
     h = {"name": name, "path": ST, "tiers": tiers, "functions": functions, "bounds": bounds, "covers": covers,
@@ -11,71 +16,161 @@ def _k(name, functions, bounds, covers, tiers=Q, **kw):
     h.update(kw)
     return h
 
-VL = 64  # lanes under Kani (kani_c20_hash::VL)
 
-def _lt(name, covers, tiers, stub=None, **kw):
+def _lt(name, covers, tiers, functions, bounds, stub=None, **kw):
     # the real `==` on [u16; VL] is a 2*VL-iteration memcmp
-    h = {"name": name, "path": LT, "tiers": tiers, "functions": [], "bounds": "", "covers": covers, "stubs": [stub or ENTRY_STUB],
+    h = {"name": name, "path": LT, "tiers": tiers, "functions": functions, "covers": covers, "stubs": [stub or ENTRY_STUB],
+         "bounds": bounds + f"; {VL} lanes (NUM_LANES redirected from 1024 under Kani), all lane values symbolic",
          "timeout": {"quick": 420, "thorough": 1500}, "mem_gb": 8, "cbmc_args": ["--unwindset", "memcmp.0:%d" % (2 * VL + 2)]}
     h.update(kw)
     return h
 
-def _en(name, covers, tiers, stubs=(), **kw):
-    h = {"name": name, "path": EN, "tiers": tiers, "functions": [], "bounds": "", "covers": covers, "stubs": list(stubs),
+
+def _en(name, covers, tiers, functions, bounds, stubs=(), **kw):
+    h = {"name": name, "path": EN, "tiers": tiers, "functions": functions, "covers": covers, "stubs": list(stubs),
+         "bounds": bounds + "; blocks map = bounded stand-in for BTreeMap (<=4 blocks), engine built without its event channel",
          "timeout": {"quick": 420, "thorough": 1500}, "mem_gb": 8}
     h.update(kw)
     return h
 
+
+LANE_OPS = ["LtHash::add_entry", "LtHash::remove_entry", "LtHash::add_assign", "LtHash::sub_assign"]
+ENTRY = "entries: any 32-byte key, value of 0..=2 symbolic bytes; hash_entry = arbitrary function of the entry (oracle)"
+
 SPEC = {
     "property": "C20",
-    "level_text": "", "level_note": "", "explanation": "", "assumptions": [], "trusted_base": [], "bounds": "", "outside": [], "functions": [],
+    "design_ref": "DESIGN.md §4 C20",
+    "level_text": (
+        "Bounded symbolic verification (Kani/CBMC) of the real execution-state code. Decided for ALL inputs inside the bounds: "
+        "(1) kernels of the trie: chunk_at equals the documented 5-bit group for every 32-byte key and every depth 0..51, chunk order at the first differing depth is "
+        "lexicographic key order and 52 equal chunks mean equal keys; Branch::child_index is the rank of the bit for every 32-bit bitmap; insert_child/remove_child keep "
+        "children.len()==popcount(bitmap), order and position for every bitmap of <=4 children; "
+        "(2) LtHash with the per-entry hash as an arbitrary function: add then remove returns to any previous commitment (and to the identity), two updates commute and equal "
+        "base±h(e1)±h(e2), three adds are order independent, observe(old,new) equals remove_entry(old) then add_entry(new), hash_entry is the documented counter-mode "
+        "expansion, and the commitment maintained by observe over <=3 arbitrary writes equals the commitment recomputed from the resulting contents; "
+        "(3) placeholder engine: begin_block seeds from the parent's computed commitment when the parent is known (full id before slot), else from the parent block hash, "
+        "else genesis; execute_transactions is the fold h:=H(h‖tx) over <=3 transactions of <=3 bytes, independent of slicing, touching no other block; parent→child chaining; "
+        "(4) State level, ONLY for one operation on the EMPTY state: insert/remove return value, get/len/is_empty, ordered iteration and fork isolation agree with the reference map. "
+        "NOT decided by the solver: map semantics, fork isolation and canonical structure (split on insert, collapse on removal, == of equal contents) from NON-EMPTY states — "
+        "every such harness exhausted 10 GB even on stand-ins for Arc/SmallVec (see outside)."
+    ),
+    "level_note": (
+        "Lane arithmetic is verified on 64 lanes, not 1024: spec.py rewrites `const NUM_LANES` in the scratch copy under cfg(kani) (one real 1024-lane loop costs 3.3 M SAT variables; "
+        "the loops run over the whole [u16; NUM_LANES] arrays and are uniform in the lane index). Under Kani state.rs and execution.rs run on typed, bounded stand-ins for "
+        "std::sync::Arc, smallvec::SmallVec, the Vec used as traversal stack and std BTreeMap (import redirection under cfg(kani); native replay uses the real types). "
+        "SHA-256 is an oracle (arbitrary function for LtHash, collision-free table for the engine). DummyExecution::end_block is not executed (tokio mpsc is a Kani compiler error); "
+        "the commitment it copies into the event is read from the engine state. Trusts Kani's MIR translation, CBMC, CaDiCaL; CBMC pointer-validity checks off."
+    ),
+    "explanation": (
+        "Bounded symbolic verification (Kani -> CBMC -> CaDiCaL) of src/execution/{state,commitment}.rs and src/execution.rs compiled from /repo's working tree with add-only overlay "
+        "modules placed as child modules (they see private items). Every counterexample is replayed natively against the unmodified code with real SHA-256, std Arc/BTreeMap and smallvec "
+        "(1024 lanes); only a natively reproduced failure is reported as a violation. One harness = one or two calls of the code under test from symbolic inputs; finite shapes "
+        "(number of children, add/remove kinds, transactions per slice) are fixed per harness and enumerated."
+    ),
+    "assumptions": [
+        "SHA-256: LtHash::hash_entry is an arbitrary function of (key, value) (Kani-only stub); in c20_lt_hash_entry and the engine harnesses crypto::hash::hash_all is an oracle "
+        "(function of its input; engine: collision-free on the queries made, never the all-zero genesis hash)",
+        "NUM_LANES = 64 under Kani (1024 in the real build and in native replays)",
+        "std::sync::Arc behaves as a reference-counted box with copy-on-write make_mut; smallvec::SmallVec as a sequence; std BTreeMap as a finite map keyed by Ord equality; Vec as a LIFO in state::Iter "
+        "(stand-ins kani_c20_sv.rs / kani_c20_map.rs written from the documented contracts; storage is never reclaimed in the Arc stand-in)",
+        "CBMC pointer-validity checks are off (memory safety of std internals is not part of the claim); Rust panics, arithmetic overflow, debug_assert! and unwinding assertions stay on",
+        "State-level harnesses start from the empty state only",
+    ],
+    "trusted_base": [
+        "stand-ins: kani_c20_sv.rs (Arc node pool, SmallVec, Stack), kani_c20_map.rs (BTreeMap)",
+        "oracles: kani_c20_lthash.rs::entry_oracle, kani_c20_hash.rs::{lt_oracle, hash_all_engine}, verif_std::hash_oracle",
+        "reference models written from the documentation: ref_chunk/ref_rank (state), closed_form (LtHash), ref_fold (engine), operation-list map (state, LtHash)",
+        "spec.py redirects (5 regex rewrites of the scratch copy, cfg(kani) only, all `required`)",
+    ],
+    "bounds": (
+        "kernels: all 32-byte keys x depths 0..51, all 32-bit bitmaps, branches of <=4 children; LtHash: 64 lanes, <=3 entries (values <=2 bytes), <=3 writes; "
+        "engine: <=3 transactions of <=3 bytes, <=4 blocks; State: one operation on the empty state, 8 clustered keys, 1-byte values"
+    ),
+    "outside": [
+        "map semantics / fork isolation / canonical structure of State from NON-EMPTY states (insert that splits a leaf, removal that collapses a branch, Arc::make_mut path copying below the root, "
+        "== of states built in different orders, insert-then-remove round trip): written (map_body/fork_body/canon_* with P>=1, canon_undo_p0) but every instance exhausted 10 GB or 25 min — "
+        "with the real Arc/SmallVec even a concrete insert into the empty state does (CBMC cannot propagate constants through untyped heap blocks and explores insert_rec x split_leaves x drop glue to the "
+        "recursion bound); with the stand-ins one operation on a one-entry state does. These parts of C20 are covered only by the kernels (chunk_at, child_index, insert_child, remove_child) and by /repo's own unit tests",
+        "LtHash lanes 64..1023 (same loop bodies); LtHash::digest (SHA-256 of the lanes); entries with values longer than 2 bytes",
+        "incremental == recomputed with the real State in the loop (c20_lt_incremental_p*: time cap); decided instead against the operation-list map (c20_lt_incremental_ref_*)",
+        "DummyExecution::end_block / finalize, the event channel; transactions longer than 3 bytes, more than 3 per block",
+        "real smallvec / std Arc / std BTreeMap internals",
+    ],
+    "functions": [
+        "execution::state::{chunk_at, Branch::{child_index, insert_child, remove_child}}",
+        "execution::state::State::{new, insert, insert_rec, remove, remove_rec, get, len, is_empty, iter, clone, eq}, Iter::next (one operation on the empty state, on stand-ins)",
+        "execution::commitment::LtHash::{identity, default, add_entry, remove_entry, observe, hash_entry, add_assign, sub_assign, eq}",
+        "execution::DummyExecution::{begin_block, execute_transactions} (ExecutionEngine impl)",
+    ],
     "redirects": [
+        # lane bound: see kani_c20_lthash.rs; active under cfg(kani) only, native replay runs the real 1024 lanes
+        {"file": "src/execution/commitment.rs", "pattern": r"^const NUM_LANES: usize = 1024;$",
+         "replacement": "#[cfg(not(kani))]\nconst NUM_LANES: usize = 1024;\n#[cfg(kani)]\nconst NUM_LANES: usize = %d;" % VL, "required": True},
+        # typed node pool instead of std Arc, bounded SmallVec (see kani_c20_sv.rs); cfg(kani) only
+        {"file": "src/execution/state.rs", "pattern": r"^use std::sync::Arc;$",
+         "replacement": "#[cfg(not(kani))]\nuse std::sync::Arc;\n#[cfg(kani)]\nuse self::kani_c20_sv::Arc;", "required": True},
+        {"file": "src/execution/state.rs", "pattern": r"^use smallvec::SmallVec;$",
+         "replacement": "#[cfg(not(kani))]\nuse smallvec::SmallVec;\n#[cfg(kani)]\nuse self::kani_c20_sv::SmallVec;", "required": True},
         # bounded LIFO instead of the heap Vec used as traversal stack by state::Iter (see kani_c20_sv.rs); cfg(kani) only
         {"file": "src/execution/state.rs", "pattern": r"^    stack: Vec<&'a Node>,$",
          "replacement": "    #[cfg(not(kani))]\n    stack: Vec<&'a Node>,\n    #[cfg(kani)]\n    stack: self::kani_c20_sv::Stack<&'a Node>,", "required": True},
         {"file": "src/execution/state.rs", "pattern": r"^            stack: vec!\[self\.root\.as_ref\(\)\],$",
          "replacement": "            #[cfg(not(kani))]\n            stack: vec![self.root.as_ref()],\n            #[cfg(kani)]\n            stack: self::kani_c20_sv::Stack::of(self.root.as_ref()),", "required": True},
-        # typed node pool instead of std Arc (see kani_c20_sv.rs); cfg(kani) only
-        {"file": "src/execution/state.rs", "pattern": r"^use std::sync::Arc;$",
-         "replacement": "#[cfg(not(kani))]\nuse std::sync::Arc;\n#[cfg(kani)]\nuse self::kani_c20_sv::Arc;", "required": True},
         # bounded stand-in for std BTreeMap (see kani_c20_map.rs); cfg(kani) only
         {"file": "src/execution.rs", "pattern": r"^use std::collections::BTreeMap;$",
          "replacement": "#[cfg(not(kani))]\nuse std::collections::BTreeMap;\n#[cfg(kani)]\nuse self::kani_c20_map::BTreeMap;", "required": True},
-        # bounded stand-in for smallvec (see kani_c20_sv.rs); cfg(kani) only
-        {"file": "src/execution/state.rs", "pattern": r"^use smallvec::SmallVec;$",
-         "replacement": "#[cfg(not(kani))]\nuse smallvec::SmallVec;\n#[cfg(kani)]\nuse self::kani_c20_sv::SmallVec;", "required": True},
-        # lane bound: see kani_c20_lthash.rs; active under cfg(kani) only, native replay runs the real 1024 lanes
-        {"file": "src/execution/commitment.rs", "pattern": r"^const NUM_LANES: usize = 1024;$",
-         "replacement": "#[cfg(not(kani))]\nconst NUM_LANES: usize = 1024;\n#[cfg(kani)]\nconst NUM_LANES: usize = %d;" % VL, "required": True},
     ],
     "overlays": [
-        {"src": "C20/kani_c20_sv.rs", "dest": "src/execution/state/kani_c20_sv.rs", "decl_in": "src/execution/state.rs", "decl": "mod kani_c20_sv;"},
         {"src": "C20/kani_c20_hash.rs", "dest": "src/crypto/kani_c20_hash.rs", "decl_in": "src/crypto.rs", "decl": "pub(crate) mod kani_c20_hash;"},
+        {"src": "C20/kani_c20_sv.rs", "dest": "src/execution/state/kani_c20_sv.rs", "decl_in": "src/execution/state.rs", "decl": "mod kani_c20_sv;"},
+        {"src": "C20/kani_c20_state.rs", "dest": "src/execution/state/kani_c20_state.rs", "decl_in": "src/execution/state.rs", "decl": "mod kani_c20_state;"},
+        {"src": "C20/kani_c20_lthash.rs", "dest": "src/execution/commitment/kani_c20_lthash.rs", "decl_in": "src/execution/commitment.rs", "decl": "mod kani_c20_lthash;"},
         {"src": "C20/kani_c20_map.rs", "dest": "src/execution/kani_c20_map.rs", "decl_in": "src/execution.rs", "decl": "mod kani_c20_map;"},
         {"src": "C20/kani_c20_engine.rs", "dest": "src/execution/kani_c20_engine.rs", "decl_in": "src/execution.rs", "decl": "mod kani_c20_engine;"},
-        {"src": "C20/kani_c20_lthash.rs", "dest": "src/execution/commitment/kani_c20_lthash.rs", "decl_in": "src/execution/commitment.rs", "decl": "mod kani_c20_lthash;"},
-        {"src": "C20/kani_c20_state.rs", "dest": "src/execution/state/kani_c20_state.rs", "decl_in": "src/execution/state.rs", "decl": "mod kani_c20_state;"},
     ],
     "harnesses": [
-        _k("c20_chunk_value", ["state::chunk_at"], "", 3, role="kernel/chunk_at"),
-        _k("c20_chunk_lexorder", ["state::chunk_at"], "", 3, role="kernel/chunk order"),
-        _k("c20_rank", ["state::Branch::child_index"], "", 3, role="kernel/child_index"),
-    ] + [_k(f"c20_child_ins_n{n}", ["state::Branch::insert_child"], "", 2) for n in range(4)]
-      + [_k(f"c20_child_rem_n{n}", ["state::Branch::remove_child"], "", 2) for n in range(1, 5)]
-      + [_k(n, [], "", c, tiers=Q) for (n, c) in (("c20_map_get_p0", 6), ("c20_map_iter_p0", 6), ("c20_fork_p0_wf", 5), ("c20_fork_p0_wo", 5))]
-      + [_k("c20_canon_undo_p0", [], "", 3, tiers=T, mem_gb=10)]
-      + [
-        _lt("c20_lt_add_remove", 4, Q),
-        _lt("c20_lt_commute_aa", 3, Q), _lt("c20_lt_commute_ar", 3, T), _lt("c20_lt_commute_rr", 3, T),
-        _lt("c20_lt_order3", 3, Q),
-        _lt("c20_lt_observe", 5, Q),
-        _lt("c20_lt_hash_entry", 1, Q, stub=HASH_STUB),
-        _en("c20_engine_seed_unknown", 5, Q), _en("c20_engine_seed_pending", 5, T), _en("c20_engine_seed_known", 5, T), _en("c20_engine_seed_both", 5, Q),
-        _en("c20_engine_fold_n0_c0", 3, T, [HASH_STUB]), _en("c20_engine_fold_n1_c0", 3, T, [HASH_STUB]), _en("c20_engine_fold_n1_c1", 3, T, [HASH_STUB]),
-        _en("c20_engine_fold_n2_c0", 3, T, [HASH_STUB]), _en("c20_engine_fold_n2_c1", 3, Q, [HASH_STUB]), _en("c20_engine_fold_n2_c2", 3, T, [HASH_STUB]),
-        _en("c20_engine_fold_n3_c1", 3, T, [HASH_STUB]), _en("c20_engine_fold_n3_c2", 3, T, [HASH_STUB]),
-        _en("c20_engine_chain", 2, Q, [HASH_STUB]),
-        _lt("c20_lt_incremental_ref_s1", 4, T), _lt("c20_lt_incremental_ref_s2", 4, Q), _lt("c20_lt_incremental_ref_s3", 4, T),
-        _lt("c20_lt_incremental_p0", 4, T),
-      ],
+        # ---- kernels -------------------------------------------------------------------------
+        _k("c20_chunk_value", ["state::chunk_at"], "every 32-byte key, every depth 0..=51", 3, role="kernel/chunk_at"),
+        _k("c20_chunk_lexorder", ["state::chunk_at"], "every pair of 32-byte keys, all 52 depths", 3, role="kernel/chunk order = key order, chunks determine the key"),
+        _k("c20_rank", ["state::Branch::child_index"], "every 32-bit bitmap, every chunk < 32", 3, role="kernel/child_index"),
+    ]
+    + [_k(f"c20_child_ins_n{n}", ["state::Branch::insert_child", "state::Branch::child_index"],
+          f"branch with {n} children on symbolic strictly increasing chunks, insert on any vacant chunk; children container = SmallVec stand-in", 2,
+          tiers=(Q if n == 2 else T), role="kernel/insert_child") for n in range(4)]
+    + [_k(f"c20_child_rem_n{n}", ["state::Branch::remove_child", "state::Branch::child_index"],
+          f"branch with {n} children on symbolic strictly increasing chunks, remove any of them; children container = SmallVec stand-in", 2,
+          tiers=(Q if n == 3 else T), role="kernel/remove_child") for n in range(1, 5)]
+    # ---- State, one operation on the empty state ------------------------------------------------
+    + [
+        _k("c20_map_get_p0", ["State::new", "State::insert", "State::remove", "State::get", "State::len", "State::is_empty"],
+           f"empty state, one symbolic operation (insert k v | remove k), probe key with symbolic last byte; {KEYS8}; {STANDINS}", 6, role="map semantics/lookups (empty state)"),
+        _k("c20_map_iter_p0", ["State::insert", "State::remove", "State::iter", "Iter::next"],
+           f"empty state, one symbolic operation, two next() calls; {KEYS8}; {STANDINS}", 6, role="map semantics/ordered iteration (empty state)"),
+        _k("c20_fork_p0_wf", ["State::clone", "State::insert", "State::remove", "State::get", "State::eq"],
+           f"empty state cloned, one symbolic operation on the clone; {KEYS8}; {STANDINS}", 5, role="fork isolation (empty state, write to fork)"),
+        _k("c20_fork_p0_wo", ["State::clone", "State::insert", "State::remove", "State::get", "State::eq"],
+           f"empty state cloned, one symbolic operation on the original; {KEYS8}; {STANDINS}", 5, tiers=T, role="fork isolation (empty state, write to original)"),
+    ]
+    # ---- LtHash ------------------------------------------------------------------------------
+    + [
+        _lt("c20_lt_add_remove", 4, Q, LANE_OPS + ["LtHash::identity", "LtHash::default", "LtHash::eq"], f"any commitment, one entry; {ENTRY}"),
+        _lt("c20_lt_commute_aa", 3, Q, LANE_OPS, f"any commitment, two entries (possibly equal), add+add in both orders; {ENTRY}"),
+        _lt("c20_lt_commute_ar", 3, T, LANE_OPS, f"any commitment, two entries, add+remove in both orders; {ENTRY}"),
+        _lt("c20_lt_commute_rr", 3, T, LANE_OPS, f"any commitment, two entries, remove+remove in both orders; {ENTRY}"),
+        _lt("c20_lt_order3", 3, T, LANE_OPS + ["LtHash::eq"], f"three entries added from the identity in order (0,1,2) and in any other permutation; {ENTRY}"),
+        _lt("c20_lt_observe", 5, T, ["LtHash::observe"] + LANE_OPS, f"any commitment, any key, old/new each absent or any value; {ENTRY}"),
+        _lt("c20_lt_hash_entry", 1, Q, ["LtHash::hash_entry"], "one entry (any key, value <=2 bytes); SHA-256 = oracle keyed on hash_entry's two call shapes", stub=HASH_STUB),
+        _lt("c20_lt_incremental_ref_s1", 4, T, ["LtHash::observe", "LtHash::add_entry", "LtHash::eq"], f"1 write (insert|remove) on arbitrary keys, map = write list; {ENTRY}"),
+        _lt("c20_lt_incremental_ref_s2", 4, Q, ["LtHash::observe", "LtHash::add_entry", "LtHash::eq"], f"2 writes (each insert|remove) on arbitrary, possibly equal keys, map = write list; {ENTRY}"),
+        _lt("c20_lt_incremental_ref_s3", 4, T, ["LtHash::observe", "LtHash::add_entry", "LtHash::eq"], f"3 writes (each insert|remove) on arbitrary, possibly equal keys, map = write list; {ENTRY}"),
+    ]
+    # ---- engine ------------------------------------------------------------------------------
+    + [_en(f"c20_engine_seed_{w}", 5, tiers, ["DummyExecution::begin_block"],
+           f"engine holding two other blocks; parent {desc}; new block Pending or Known, parent Some/None symbolic; slots, hashes, commitments symbolic")
+       for (w, tiers, desc) in (("unknown", Q, "not known to the engine"), ("pending", T, "known under its slot only"), ("known", T, "known under its full id only"), ("both", Q, "known under both (full id wins)"))]
+    + [_en(f"c20_engine_fold_n{n}_c{c}", 3, (Q if (n, c) == (2, 1) else T), ["DummyExecution::execute_transactions"],
+           f"{n} transactions of 0..=3 symbolic bytes in one slice vs. slices of {c}+{n - c}; symbolic seeds; a third block and an unknown block id", [HASH_STUB])
+       for (n, c) in ((0, 0), (1, 0), (1, 1), (2, 0), (2, 1), (2, 2), (3, 1), (3, 2))]
+    + [_en("c20_engine_chain", 2, Q, ["DummyExecution::begin_block", "DummyExecution::execute_transactions"],
+           "parent on genesis with 1 transaction, child on the parent (any block hash) with 1 transaction; symbolic slots", [HASH_STUB])],
 }
